@@ -43,6 +43,11 @@ EXPLANATION += (
     'evaluated here as well.'
 )
 
+EXPLANATION += (
+    ' Round 3: per-file state of the statistics worker (shared with '
+    'C09).'
+)
+
 RULE_TEXT = (
     "one obligation per (file kind, reader, required dataset), per "
     "provenance relation; non-trivial when the reader requires at least "
